@@ -71,7 +71,6 @@ struct RunOut {
 fn audit(vm: &Vm<Host>) -> Option<String> {
     use cao_lang::verif::inspect;
     let rt = &*vm.runtime_data;
-    let mut seen: BTreeSet<usize> = BTreeSet::new();
     let mut work: Vec<(Value, String)> = vec![];
     for (i, v) in inspect::value_stack(rt).into_iter().enumerate() {
         work.push((v, format!("stack[{}]", i)));
@@ -79,6 +78,12 @@ fn audit(vm: &Vm<Host>) -> Option<String> {
     for (i, v) in inspect::globals(rt).into_iter().enumerate() {
         work.push((v, format!("global#{}", i)));
     }
+    audit_roots(work)
+}
+
+/// walk everything reachable from the given values and look for swept objects
+pub fn audit_roots(mut work: Vec<(Value, String)>) -> Option<String> {
+    let mut seen: BTreeSet<usize> = BTreeSet::new();
     while let Some((v, path)) = work.pop() {
         let Value::Object(o) = v else { continue };
         if !seen.insert(o.as_ptr() as usize) {
